@@ -301,8 +301,8 @@ class RtrEngine(object):
             if n > 50:
                 key, mask = (i * 2654435761) & 0xffffffff, 0xffffffff
             else:
-                mask = [0xffffffff, 0xffff0000, 0, t.draw(1 << 32)][t.draw(4)]
-                key = t.draw(1 << 32)
+                mask = [0xffffffff, 0xffff0000, 0, t.edge(1 << 32)][t.draw(4)]
+                key = t.edge(1 << 32)
                 if t.draw(6) == 0:
                     # extremes of both words together
                     key = [0xffffffff, 0, 0xffffffff, 0x80000000][t.draw(4)]
@@ -365,7 +365,7 @@ class RtrEngine(object):
 
     def op_load(self, tables=None, heal=False):
         t, w, c, m = self.t, self.w, self.c, self.m
-        app_id = 1 + t.draw(255)
+        app_id = 1 + t.edge(255)
         multi = tables is not None
         if not multi:
             xy = self.chip_list[t.draw(len(self.chip_list))]
